@@ -112,7 +112,7 @@ static int g_prop = 17;
 /* every monitor runs in every check, but a check only reports the failures of its own property
  * (keys "C17/..", "C18/..", "C19/.."); hygiene, harness and crash keys are always reported */
 #define mc_fail(key, ...) do { const char *k_ = (key); \
-	if (k_[0] == 'C' && k_[1] == '1' && k_[3] == '/' && (k_[2] - '0') + 10 != g_prop) { MC_COUNT("other_property_monitor_hits"); } \
+	if (k_[0] == 'C' && k_[1] == '1' && k_[3] == '/' && g_prop && (k_[2] - '0') + 10 != g_prop) { MC_COUNT("other_property_monitor_hits"); } \
 	else (mc_fail)(k_, __VA_ARGS__); } while (0)
 
 static const char *tname(void) { return g_tname; }
@@ -993,6 +993,11 @@ static void teardown(void)
 {
 	for (int e = 0; e < 2; e++) if (!E[e].freed && E[e].bev) free_end(&E[e]);
 	if (g_tls) tls_teardown();
+	/* let pending deferred callbacks and finalizers run: a deferred callback that is still queued holds a
+	 * reference, and event_base_free() cancels it without dropping that reference (upstream behaviour,
+	 * belongs to the lifetime properties, not to C17-C19).  Any user callback from here on is a
+	 * callback-after-free. */
+	if (base) for (int i = 0; i < 4; i++) { one_loop(); if (!loop_cbs && !event_base_get_num_events(base, EVENT_BASE_COUNT_ACTIVE)) break; }
 	if (base) { event_base_free(base); base = NULL; }
 	if (accepted_fd >= 0) close(accepted_fd);
 	accepted_fd = -1;
